@@ -117,6 +117,8 @@ def check(ctx, rep):
     from . import C20
     C20.has_mods_coverage(ctx, rep, 'C18a')
     provenance(ctx, rep, 'C18b')
+    from .common import memo_rule
+    memo_rule(ctx, rep, 'C18b', ('peptacular.mass_calc',))
     from . import C01
     C01.value_text(ctx, rep, 'C18b')
     from .common import value_preserving_rule
@@ -128,3 +130,5 @@ def check(ctx, rep):
     s = an.summaries.get((FQ, ()))
     ob(rep, 'EFF-mutates-argument', FQ, 'the argument annotation is not written', not s.mutates,
        'works on a copy', f'writes parameter(s) {sorted(s.mutates)}', program.func(FQ).loc(), 'C18c')
+    from .common import optional_number_tests_rule
+    optional_number_tests_rule(ctx, rep, 'C18b', ('peptacular.mass_calc',))
